@@ -20,6 +20,20 @@
    (see the annotations there).  The state is the sequence of applied state diffs, the state root
    its (injective) image.
 
+   Applicability.  "Applying its state diff to the current state" presupposes that the diff CAN be
+   applied: it deploys only addresses that do not exist yet, replaces the class of / writes to
+   contracts that exist, declares Sierra classes that are not declared yet and migrates the compiled
+   class hash only of classes declared under the old hash version and not migrated yet.  The
+   state-diff commitment (hence the block hash) folds `deployed` and `replaced` into ONE list of
+   updated contracts and `declared` and `migrated` into ONE list of class entries, and the state
+   root depends on the resulting (class, nonce, storage) / leaf only: moving an entry between two
+   such sections changes neither.  So neither the hash check nor the root check can tell an
+   inapplicable diff from the honest one - only the guards of the state layer do
+   (core/deprecatedstate DeployContract / NewContractUpdater, core/state Update / getStateObject,
+   statebackend storeCasmHashMetadata, CasmHashMetadata.Migrate).  A block's diff is abstracted to
+   its `ent`ries: which contracts / classes (named by the content id of the block that created
+   them) sit in which of the four sections; what exists is derived from the applied diffs.
+
    One action = one offer run through the pipeline exactly as sync does: SanityCheckNewHeight, then
    Store; sync verifies several blocks ahead of the one being stored, which VerifyAhead /
    StorePending model.  `act`, `res`, `cur` are output-only. *)
@@ -39,7 +53,11 @@ CONSTANTS
                      \* messages / reverts, a diff without classes)
   Targets,           \* [shape -> SUBSET field names]: tamperings that have something to alter in that shape
   EmptyDiffShapes,   \* shapes whose state diff has no entry (applying it leaves the root where it is)
-  ClassShapes,       \* shapes that declare classes
+  ClassShapes,       \* shapes that declare classes (and replace the class of existing contracts, and -
+                     \* from CasmV2From on - migrate the oldest class still under the old compiled hash)
+  DeployShapes,      \* shapes whose diff deploys a new contract
+  CasmV2From,        \* index in Versions from which classes are declared with the V2 compiled class hash
+                     \* and the `migrated` section exists
   MaxPending,        \* blocks verified ahead and not yet stored
   (* design switches; TRUE/TRUE/TRUE/FALSE is the code as it is.  The other settings are used as
      self-tests of the properties below (TLC must find the violation). *)
@@ -47,7 +65,13 @@ CONSTANTS
   RootChecked,       \* state.Update compares the computed root with the declared one
   RootCheckedOnEmptyDiff, \* ... also when the state diff has no entry
   TxHashesChecked,   \* VerifyBlockHash runs VerifyTransactions
-  WriteBeforeChecks  \* Store writes header indexes outside the batch before checking
+  WriteBeforeChecks, \* Store writes header indexes outside the batch before checking
+  (* the guards of the state layer (TRUE = the mechanism exists) *)
+  DeployGuard,       \* deploying an address that already exists is refused (ErrContractAlreadyDeployed)
+  ExistGuard,        \* replacing the class of an address that does not exist is refused (ErrContractNotDeployed)
+  MigrateGuard,      \* migrating a class that is not an unmigrated old-hash class is refused
+  RedeclareGuard     \* declaring a Sierra class that is already declared is refused.  FALSE = the code as
+                     \* it is (finding block-verify:accepted-inapplicable:redeclare*); TRUE = repaired
 
 VARIABLES chain,     \* sequence of stored blocks
           db,        \* [height, byNumber, byHash]: the indexes Store writes
@@ -67,11 +91,79 @@ HeadHash == IF Len(chain) = 0 THEN Zero ELSE chain[Len(chain)].hash
 HeadVIdx == IF Len(chain) = 0 THEN 1 ELSE VIdx(chain[Len(chain)].version)
 
 --------------------------------------------------------------------------------
+(* what exists after the diffs in s were applied.  Contracts and Sierra classes are named by the
+   content id <<height, shape, version>> of the block that created them. *)
+Cids(s) == {s[i][1] : i \in 1..Len(s)}
+Contracts(s) == {c \in Cids(s) : c[2] \in DeployShapes}
+Declared(s) == {c \in Cids(s) : c[2] \in ClassShapes}
+IsV2(c) == VIdx(c[3]) >= CasmV2From
+Oldest(S) == CHOOSE c \in S : \A o \in S : c[1] <= o[1]
+(* classes declared with the old compiled class hash and not migrated yet: a class-declaring block
+   from CasmV2From on migrates the oldest one *)
+RECURSIVE Unmig(_)
+Unmig(s) ==
+  IF Len(s) = 0 THEN {}
+  ELSE LET p == Unmig(SubSeq(s, 1, Len(s) - 1))
+           c == s[Len(s)][1]
+       IN IF c[2] \notin ClassShapes THEN p
+          ELSE IF IsV2(c) THEN (IF p = {} THEN p ELSE p \ {Oldest(p)})
+          ELSE p \cup {c}
+Migrated(s) == {c \in Declared(s) : ~IsV2(c)} \ Unmig(s)
+
+(* the sections of the diff the reference builder produces for content c on state s *)
+Ent(c, s) ==
+  [deployed |-> IF c[2] \in DeployShapes THEN {c} ELSE {},
+   replaced |-> IF c[2] \in ClassShapes THEN Contracts(s) ELSE {},
+   declared |-> IF c[2] \in ClassShapes THEN {c} ELSE {},
+   migrated |-> IF c[2] \in ClassShapes /\ IsV2(c) /\ Unmig(s) # {} THEN {Oldest(Unmig(s))} ELSE {}]
+
+(* the protocol meaning: the diff can be applied to s *)
+Applicable(e, s) ==
+  /\ e.deployed \cap Contracts(s) = {}
+  /\ e.replaced \subseteq Contracts(s)
+  /\ e.declared \cap Declared(s) = {}
+  /\ e.migrated \subseteq Unmig(s)
+
+(* what the state layer refuses *)
+ApplyWhy(e, s) ==
+  IF DeployGuard /\ e.deployed \cap Contracts(s) # {} THEN "already-deployed"
+  ELSE IF ExistGuard /\ ~(e.replaced \subseteq Contracts(s)) THEN "not-deployed"
+  ELSE IF RedeclareGuard /\ e.declared \cap Declared(s) # {} THEN "already-declared"
+  ELSE IF MigrateGuard /\ ~(e.migrated \subseteq Unmig(s)) THEN "cannot-migrate"
+  ELSE "ok"
+
+(* what the commitments see of the sections: two merged lists *)
+Merged(e) == <<e.deployed \cup e.replaced, e.declared \cup e.migrated>>
+
+(* the ways to make a diff inapplicable that neither the hash nor the root can see.
+   moves (the block hash stays what it was): an entry changes section;
+   adds (the block is re-sealed): an entry re-states what the state already holds *)
+InapMoves == {"redeploy", "replace-new", "migrate-new", "redeclare"}
+InapAdds == {"redeploy-same", "redeclare-same", "migrate-again"}
+HasTarget(k, c, e, s) ==
+  CASE k = "redeploy" -> e.replaced # {}
+    [] k = "replace-new" -> e.deployed # {}
+    [] k = "migrate-new" -> e.declared # {} /\ IsV2(c)
+    [] k = "redeclare" -> e.migrated # {}
+    [] k = "redeploy-same" -> Contracts(s) # {}
+    [] k = "redeclare-same" -> Declared(s) # {}
+    [] k = "migrate-again" -> IsV2(c) /\ Migrated(s) # {}
+    [] OTHER -> FALSE
+Alter(k, e, s) ==
+  CASE k = "redeploy" -> LET x == Oldest(e.replaced) IN [e EXCEPT !.replaced = @ \ {x}, !.deployed = @ \cup {x}]
+    [] k = "replace-new" -> [e EXCEPT !.deployed = {}, !.replaced = @ \cup e.deployed]
+    [] k = "migrate-new" -> [e EXCEPT !.declared = {}, !.migrated = @ \cup e.declared]
+    [] k = "redeclare" -> [e EXCEPT !.migrated = {}, !.declared = @ \cup e.migrated]
+    [] k = "redeploy-same" -> [e EXCEPT !.deployed = @ \cup {Oldest(Contracts(s))}]
+    [] k = "redeclare-same" -> [e EXCEPT !.declared = @ \cup {Oldest(Declared(s))}]
+    [] k = "migrate-again" -> [e EXCEPT !.migrated = @ \cup {Oldest(Migrated(s))}]
+
+--------------------------------------------------------------------------------
 (* hashes, as injective terms over what is committed *)
 TxHashOf(b) == <<b.cid, (b.alt \cap Committed[b.version]) \cap TxFields>>
 
 HashOf(b) == <<b.version, b.number, b.parent, b.root, b.cid,
-               (b.alt \cap Committed[b.version]) \ (TxFields \cup SuFields), b.txh>>
+               (b.alt \cap Committed[b.version]) \ (TxFields \cup SuFields), b.txh, Merged(b.ent)>>
 
 DiffOf(b) == <<b.cid, b.alt \cap SdFields>>
 (* a diff without entries changes nothing: the root after it is the root before it *)
@@ -92,7 +184,7 @@ Pristine(v, var) ==
   LET c == <<Len(chain), var, v>>
       b0 == [cid |-> c, number |-> Len(chain), parent |-> HeadHash, version |-> v, alt |-> {},
              oldRoot |-> state, root |-> state, classOK |-> TRUE,
-             txh |-> <<c, {}>>, hash |-> Zero]
+             txh |-> <<c, {}>>, hash |-> Zero, ent |-> Ent(c, state)]
       b1 == [b0 EXCEPT !.root = RootAfter(state, b0)]
   IN [b1 EXCEPT !.hash = HashOf(b1)]
 
@@ -109,6 +201,7 @@ StoreWhy(b) ==
   IF SuccessionChecked /\ b.number # Len(chain) THEN "number"     \* verifyBlockSuccession
   ELSE IF SuccessionChecked /\ b.parent # HeadHash THEN "parent"
   ELSE IF b.oldRoot # state THEN "oldroot"                        \* state.Update: verifyComm(OldRoot)
+  ELSE IF ApplyWhy(b.ent, state) # "ok" THEN ApplyWhy(b.ent, state) \* the guards of the state layer
   ELSE IF RootChecked /\ (RootCheckedOnEmptyDiff \/ ~DiffIsEmpty(b))
           /\ b.root # RootAfter(state, b) THEN "root"             \* state.Update: new root check
   ELSE "ok"
@@ -184,6 +277,16 @@ OfferWrongRoot(v, var, kind, seal) ==
                 [] kind = "oldroot" -> [p EXCEPT !.oldRoot = Append(state, <<"other-root">>)]
      IN Process(IF seal = "resealed" THEN Rehash(b) ELSE b)
 
+(* a valid successor whose diff was made inapplicable in a way neither hash nor root shows: for a
+   move every declared hash is kept (and still recomputes); for an add the block is re-sealed *)
+OfferInapplicable(v, var, kind) ==
+  /\ CanGrow /\ v \in NextVersions /\ kind \in InapMoves \cup InapAdds
+  /\ LET p == Pristine(v, var) IN
+     /\ HasTarget(kind, p.cid, p.ent, state)
+     /\ act' = [Act("OfferInapplicable", v, var, "", kind) EXCEPT !.seal = IF kind \in InapAdds THEN "resealed" ELSE "kept"]
+     /\ LET b == [p EXCEPT !.ent = Alter(kind, p.ent, state)]
+        IN Process(IF kind \in InapAdds THEN Rehash(b) ELSE b)
+
 (* hash-valid block carrying a class definition that does not hash to its declared class hash *)
 OfferStaleClassHash(v, var) ==
   /\ CanGrow /\ v \in NextVersions /\ var \in ClassShapes
@@ -242,6 +345,7 @@ Next ==
   \/ \E v \in VSet, var \in Shapes, k \in {"root", "diff", "oldroot"}, sl \in {"resealed", "kept"} :
        OfferWrongRoot(v, var, k, sl)
   \/ \E v \in VSet, var \in Shapes : OfferStaleClassHash(v, var)
+  \/ \E v \in VSet, var \in Shapes, k \in InapMoves \cup InapAdds : OfferInapplicable(v, var, k)
   \/ \E v \in VSet, var \in Shapes : OfferCommitFails(v, var)
   \/ \E v \in VSet, var \in Shapes : VerifyAhead(v, var)
   \/ \E b \in pending : StorePending(b)
@@ -269,6 +373,8 @@ StoredChainValid ==
     /\ b.parent = (IF i = 1 THEN Zero ELSE chain[i - 1].hash)
     /\ b.root = StateOf(i)
     /\ b.oldRoot = StateOf(i - 1)
+    /\ Applicable(b.ent, StateOf(i - 1))          \* its diff could be applied ...
+    /\ b.ent = Ent(b.cid, StateOf(i - 1))         \* ... and is, section by section, the builder's
 
 StateIsChain == state = StateOf(Len(chain))
 
@@ -286,6 +392,7 @@ AcceptedOnlyIfValid ==
        /\ cur'.parent = HeadHash
        /\ cur'.oldRoot = state
        /\ cur'.root = RootAfter(state, cur')
+       /\ Applicable(cur'.ent, state)
        /\ chain' = Append(chain, cur')]_vars
 
 (* Rejected => UNCHANGED <<chain, db, state>> *)
@@ -296,7 +403,17 @@ RejectedUnchanged ==
    non-continuing / wrong-root / stale-class offer; every valid successor is accepted *)
 TamperRejected ==
   [][act'.name \in {"OfferTampered", "OfferWrongParent", "OfferWrongNumber", "OfferWrongRoot",
-                    "OfferStaleClassHash"} => res'.kind = "rejected"]_vars
+                    "OfferStaleClassHash", "OfferInapplicable"} => res'.kind = "rejected"]_vars
+
+(* the inapplicable offers are exactly the ones the hash and root checks cannot decide: every
+   declared hash recomputes, the block continues the head and declares the root of its diff *)
+InapplicableLooksValid ==
+  [][act'.name = "OfferInapplicable" =>
+       /\ VerifyWhy(cur') = "ok"
+       /\ cur'.number = Len(chain) /\ cur'.parent = HeadHash /\ cur'.oldRoot = state
+       /\ cur'.root = RootAfter(state, cur')
+       /\ ~Applicable(cur'.ent, state)
+       /\ (act'.seal = "kept" => cur'.hash = Pristine(act'.v, act'.var).hash)]_vars
 
 RestartIsNoOp ==
   [][act'.name = "Restart" => UNCHANGED <<chain, db, state>>]_vars
